@@ -157,3 +157,37 @@ func VerifC17Constants() {
 	verifAssert("g.oncurve", c.IsOnCurve(c.Gx, c.Gy))
 	verifAssert("bitsize", c.BitSize == 256)
 }
+
+// VerifC17AddJacobian: the addition as ScalarMult uses it — the affine base P (z = 1, or z = 0 for the
+// identity) added to an accumulator Q given in ANY Jacobian representation (x·z², y·z³, z), z in [1, p):
+// the sum, read back through affineFromJacobian, is P + Q for all P, Q — also when the accumulator IS the
+// base in another representation (the doubling case inside double-and-add, scalar n+2) or its inverse.
+// One step of the double-and-add loop from an arbitrary loop state.
+//
+//verif:run quick p=13
+//verif:run thorough p=43
+//verif:big sbv 32
+//verif:timeout 900
+func VerifC17AddJacobian(p int) {
+	curve, t := verifCurve(p)
+	x1, y1 := verifPoint("p", t.p)
+	x2, y2 := verifPoint("q", t.p)
+	z := uint32(verifU8("z")) % t.p
+	verifAssume(z != 0)
+	wx, wy := verifRefAdd(x1, y1, x2, y2, t.p)
+	b := func(v uint32) *big.Int { return big.NewInt(int64(v)) }
+	zz := z * z % t.p
+	ax, ay, az := x2*zz%t.p, y2*(zz*z%t.p)%t.p, z
+	if x2 == 0 && y2 == 0 {
+		ax, ay, az = 0, 0, 0
+	}
+	z1 := zForAffine(b(x1), b(y1))
+	var rx, ry *big.Int
+	panicked := verifPanics(func() {
+		rx, ry = curve.affineFromJacobian(curve.addJacobian(b(x1), b(y1), z1, b(ax), b(ay), b(az)))
+	})
+	verifAssert("jac.nopanic", !panicked)
+	if !panicked {
+		verifAssert("jac.add.value", verifBigEq(rx, wx) && verifBigEq(ry, wy))
+	}
+}
